@@ -334,3 +334,67 @@ func VerifH_range_iptext() {
 		vnd.Assert(u32of(back.To4()) == u32of(b[:]), "C03 the stored address text parses back to the same address")
 	}
 }
+
+// VerifH_range_restart (C02/C03/C07, obligation P1): setupRange on a store
+// holding any bindings of the invariant form re-creates exactly those bindings,
+// re-marks every stored address in the allocator (so that it is never handed to
+// somebody else) and refuses to start when the store binds one address twice.
+func VerifH_range_restart() {
+	dbReset()
+	lo := vnd.U8("startlow")
+	n := vnd.Pick("N", 2, 64)
+	vnd.Assume(int(lo)+n-1 <= 255 && lo >= 100) // three-digit last octet: one text length per path
+	startIP := net.IP{10, 200, 150, lo}
+	endIP := net.IP{10, 200, 150, lo + byte(n) - 1}
+	nrows := vnd.Pick("rows", 0, 3)
+	macs := []string{"00:11:22:33:44:55", "aa:bb:cc:dd:ee:ff:00:11", "05", ""}
+	var offs []uint8
+	dup := false
+	for i := 0; i < nrows; i++ {
+		o := vnd.U8("offset")
+		vnd.Assume(int(o) < n)
+		for _, p := range offs {
+			if vnd.Pick("dup", 0, 1) == 1 {
+				vnd.Assume(o == p) // two hardware addresses bound to one address: a corrupt store
+				dup = true
+			} else {
+				vnd.Assume(o != p)
+			}
+		}
+		offs = append(offs, o)
+		dbRows = append(dbRows, dbRow{mac: affinity(macs[i]), ip: net.IP{10, 200, 150, lo + o}.String(), expiry: vnd.Range("expiry", 946684800, 4102444800), hostname: "h"})
+	}
+	h, err := setupRange("leases.sqlite3", startIP.String(), endIP.String(), "1h")
+	if dup {
+		vnd.Cover("duplicate-address")
+		vnd.Assert(err != nil && h == nil, "C02 start-up refuses a store that binds one address to two clients")
+		return
+	}
+	vnd.Cover("restarted")
+	vnd.Assert(err == nil && h != nil, "C03 restarting on a store of valid bindings succeeds")
+	if err != nil || h == nil {
+		return
+	}
+	// every stored address is now outstanding: an unknown client never receives one of them
+	req := &dhcpv4.DHCPv4{OpCode: dhcpv4.OpcodeBootRequest, HWType: iana.HWTypeEthernet, ClientHWAddr: net.HardwareAddr{2, 2, 2, 2, 2, 2}, Options: dhcpv4.Options{}}
+	resp := &dhcpv4.DHCPv4{OpCode: dhcpv4.OpcodeBootReply, Options: dhcpv4.Options{}}
+	r, _ := h(req, resp)
+	if r != nil {
+		got := r.YourIPAddr.To4()
+		vnd.Assert(got != nil && got[0] == 10 && got[3] >= lo && int(got[3]) <= int(lo)+n-1, "C02 after a restart new leases lie in the range")
+		if got != nil {
+			for _, o := range offs {
+				vnd.Assert(got[3] != lo+o, "C02 after a restart a stored address is never given to another client")
+			}
+		}
+	} else {
+		vnd.Assert(len(offs) == n, "C02 after a restart a new client is refused only when the range is full")
+	}
+	// a known client gets its stored address back
+	if nrows > 0 {
+		req2 := &dhcpv4.DHCPv4{OpCode: dhcpv4.OpcodeBootRequest, HWType: iana.HWTypeEthernet, ClientHWAddr: net.HardwareAddr{0x00, 0x11, 0x22, 0x33, 0x44, 0x55}, Options: dhcpv4.Options{}}
+		resp2 := &dhcpv4.DHCPv4{OpCode: dhcpv4.OpcodeBootReply, Options: dhcpv4.Options{}}
+		r2, _ := h(req2, resp2)
+		vnd.Assert(r2 != nil && r2.YourIPAddr.To4() != nil && r2.YourIPAddr.To4()[3] == lo+offs[0], "C03 after a restart a client is given the address it had before")
+	}
+}
